@@ -535,6 +535,20 @@ class TTFInterpolatablePreProcessor(BaseInterpolatablePreProcessor):
             if not any(component_counts):
                 continue
 
+            # A 2x2 that does not fit F2Dot14 makes fontTools' TTGlyphPen decompose the
+            # glyph when the glyf table is built, resolving the components in that
+            # master's own glyph set; a sparse master does not contain the base glyphs,
+            # so its copy of the glyph would come out empty. Decompose such glyphs here
+            # instead, where interpolated layers are available.
+            if any(
+                s > 2 or s < -2
+                for layer in layers
+                for component in layer.components
+                for s in component.transformation[0:4]
+            ):
+                needs_decomposition.add(glyph)
+                continue
+
             # Other bits of the system will check for incompatible construction,
             # we just want to stay alive.
             for component_index in range(0, min(component_counts)):
